@@ -1,5 +1,5 @@
-THEOREMS = []
-MODULES = []
+THEOREMS = ["Lbfgsb.C03.ls_strict_decrease", "Lbfgsb.C03.failed_ls_keeps_x", "Lbfgsb.C03.accepted_monotone", "Lbfgsb.C03.result_le_start"]
+MODULES = ["LbfgsbVerif.Props.C03"]
 MONITORS = ["C03", "C02"]
 N_QUICK, N_THOROUGH = 1200, 12000
 COMMON = {"small_budgets": True, "families": ["qp", "qp_quartic", "rosen", "osc", "styb", "badscale", "steep", "steep", "bench"]}
